@@ -138,7 +138,7 @@ impl AnyVal {
         match self {
             AnyVal::Seq(t, m) => check_tree(t.as_ref(), m, seed, SeqOpts { prefetch: true, unchecked: o.unchecked, budget: o.budget, full_get_upto: 2000 }, ctx),
             AnyVal::Bits(v, m) => check_bits(v, m, seed, BitOpts { unchecked: o.unchecked, budget: o.budget, iterators: o.iterators && m.n() <= 400_000, words: true, full_select_upto: o.full_select_upto }, ctx),
-            AnyVal::Quad(v, m) => check_quads(v, m, seed, QuadOpts { unchecked: o.unchecked, budget: o.budget, iterators: o.iterators && m.n() <= 400_000 }, ctx),
+            AnyVal::Quad(v, m) => check_quads(v, m, seed, QuadOpts { unchecked: o.unchecked, budget: o.budget, iterators: o.iterators && m.n() <= 400_000, all_samples: false }, ctx),
         }
     }
     pub fn ser(&self) -> Result<Vec<u8>, String> {
